@@ -82,9 +82,16 @@ type kvElection struct {
 	onPromote func(ctx context.Context, token string)
 	onDemote  func()
 
-	// promoteStarted holds a chan struct{} that is closed when the current
-	// term's OnPromote goroutine is about to invoke the callback.
-	promoteStarted atomic.Value
+	// promoteStarts queues, in the order the terms began, one channel per
+	// term that is closed when the term's OnPromote goroutine is about to
+	// invoke the callback. Each OnDemote invocation takes the oldest one: the
+	// n-th demotion belongs to the n-th term. Guarded by promoteMu.
+	promoteMu     sync.Mutex
+	promoteStarts []chan struct{}
+
+	// demoteStarted holds a chan struct{} that is closed when the latest
+	// detached OnDemote goroutine (see runOnDemoteDetached) has been started.
+	demoteStarted atomic.Value
 
 	// Connection monitoring
 	connectionMonitor ConnectionMonitor
@@ -566,7 +573,9 @@ func (e *kvElection) becomeLeader(token string, rev uint64) {
 		// OnDemote must never be invoked for a term before that term's OnPromote:
 		// the goroutine below may be scheduled late, so demotions wait for it.
 		started := make(chan struct{})
-		e.promoteStarted.Store(started)
+		e.promoteMu.Lock()
+		e.promoteStarts = append(e.promoteStarts, started)
+		e.promoteMu.Unlock()
 		wg.Add(1)
 		go func() {
 			defer wg.Done()
@@ -585,6 +594,9 @@ func (e *kvElection) becomeLeader(token string, rev uint64) {
 
 			promoteCtx, cancel := context.WithCancel(termCtx)
 			defer cancel()
+			if pending, ok := e.demoteStarted.Load().(chan struct{}); ok {
+				<-pending
+			}
 			close(started)
 			onPromote(promoteCtx, token)
 		}()
@@ -932,7 +944,7 @@ func (e *kvElection) StopWithContext(ctx context.Context, opts StopOptions) erro
 		onDemote := e.onDemote
 		e.mu.RUnlock()
 		if onDemote != nil {
-			go onDemote()
+			e.runOnDemoteDetached(onDemote)
 		}
 	}
 
@@ -1049,11 +1061,7 @@ func (e *kvElection) StopWithContext(ctx context.Context, opts StopOptions) erro
 		if onDemote != nil {
 			if opts.WaitForDemote {
 				// Wait for callback to complete
-				done := make(chan struct{})
-				go func() {
-					onDemote()
-					close(done)
-				}()
+				done := e.runOnDemoteDetached(onDemote)
 
 				select {
 				case <-done:
@@ -1069,12 +1077,29 @@ func (e *kvElection) StopWithContext(ctx context.Context, opts StopOptions) erro
 					return ctx.Err()
 				}
 			} else {
-				go onDemote()
+				e.runOnDemoteDetached(onDemote)
 			}
 		}
 	}
 
 	return nil
+}
+
+// runOnDemoteDetached invokes the demotion callback on a goroutine of its own
+// and returns a channel that is closed when the callback has returned. A stop
+// call that does not wait for the callback can be followed by Start at once;
+// the OnPromote of the next term waits until this goroutine has been started,
+// so that the two callbacks still alternate.
+func (e *kvElection) runOnDemoteDetached(onDemote func()) <-chan struct{} {
+	started := make(chan struct{})
+	done := make(chan struct{})
+	e.demoteStarted.Store(started)
+	go func() {
+		close(started)
+		onDemote()
+		close(done)
+	}()
+	return done
 }
 
 func (e *kvElection) Status() ElectionStatus {
@@ -1161,7 +1186,16 @@ func (e *kvElection) OnDemote(fn func()) {
 	e.onDemote = func() {
 		// The two callbacks alternate, starting with a promotion: a term that
 		// ends before its OnPromote goroutine got to run still sees OnPromote first.
-		if started, ok := e.promoteStarted.Load().(chan struct{}); ok {
+		// (Of this term, not of a later one: a detached OnDemote may run when the
+		// next term has already begun.)
+		var started chan struct{}
+		e.promoteMu.Lock()
+		if n := len(e.promoteStarts); n > 0 {
+			started = e.promoteStarts[0]
+			e.promoteStarts = e.promoteStarts[1:]
+		}
+		e.promoteMu.Unlock()
+		if started != nil {
 			<-started
 		}
 		fn()
